@@ -17,11 +17,15 @@ import (
 	"github.com/mosaicnetworks/babble/src/node"
 	"github.com/mosaicnetworks/babble/src/node/state"
 	"github.com/mosaicnetworks/babble/src/peers"
+	"github.com/mosaicnetworks/babble/src/proxy"
 	"github.com/mosaicnetworks/babble/src/proxy/inmem"
 )
 
 // Config describes a closed system.
 type Config struct {
+	// WrapProxy, when set, may replace the application proxy node i is built with (the in-process proxy `inm`
+	// around `app` stays the submission path)
+	WrapProxy    func(i int, app *App, inm proxy.AppProxy) proxy.AppProxy
 	N            int // genesis validators: keys 0..N-1
 	CacheSize    int
 	SyncLimit    int
@@ -35,7 +39,7 @@ type Config struct {
 	Liars        map[int]func(tick int) int64
 	SelfOnly     map[int]bool         // nodes started with a peer list that contains only themselves (genesis peers as configured)
 	CommitFault  map[int]map[int]bool // node → numbers of the commit calls that are applied but answered with an error
-	Skew         map[int]int64 // honest nodes whose clock is ahead (or behind) by a constant
+	Skew         map[int]int64        // honest nodes whose clock is ahead (or behind) by a constant
 	WrapStore    func(idx int, s hg.Store) hg.Store
 	Maintenance  map[int]bool // nodes (re)started in maintenance mode
 	CacheOf      map[int]int  // per-node cache size (overrides CacheSize)
@@ -74,31 +78,31 @@ type EvRec struct {
 
 // SimNode is one participant.
 type SimNode struct {
-	Idx       int
-	Key       *ecdsa.PrivateKey
-	Pub       string
-	Peer      *peers.Peer
-	Conf      *config.Config
-	Node      *node.Node
-	App       *App
-	Store     hg.Store
-	Trans     *Transport
-	Prox      *inmem.InmemProxy
+	Idx        int
+	Key        *ecdsa.PrivateKey
+	Pub        string
+	Peer       *peers.Peer
+	Conf       *config.Config
+	Node       *node.Node
+	App        *App
+	Store      hg.Store
+	Trans      *Transport
+	Prox       *inmem.InmemProxy
 	Configured []string // public keys of the peer list the node was started with
-	Silent    bool // neither initiates nor answers
-	Down      bool // crashed / not yet started
-	Restarted bool // re-created from its store (pools were lost)
-	KeepDir   bool // do not delete Dir on Close
-	Stalled   int  // insertion errors seen by this node after a fast-forward (documented limitation: ends the C13 obligation)
-	Ticks     int
-	FFStep    int // step of the last fast-forward (-1: full history)
-	Has       map[string]bool
-	known     map[uint32]int
-	Dir       string
-	pending   []string // events seen since the last digest (for the insertion chain)
-	chain     [32]byte
-	Submits   [][]byte // transactions accepted by this node (addTransaction returned)
-	Itxs      []hg.InternalTransaction
+	Silent     bool     // neither initiates nor answers
+	Down       bool     // crashed / not yet started
+	Restarted  bool     // re-created from its store (pools were lost)
+	KeepDir    bool     // do not delete Dir on Close
+	Stalled    int      // insertion errors seen by this node after a fast-forward (documented limitation: ends the C13 obligation)
+	Ticks      int
+	FFStep     int // step of the last fast-forward (-1: full history)
+	Has        map[string]bool
+	known      map[uint32]int
+	Dir        string
+	pending    []string // events seen since the last digest (for the insertion chain)
+	chain      [32]byte
+	Submits    [][]byte // transactions accepted by this node (addTransaction returned)
+	Itxs       []hg.InternalTransaction
 }
 
 // FullHistory is true for nodes that never reset from a frame.
@@ -293,9 +297,13 @@ func (c *Cluster) startNode(i int, currentPeers []*peers.Peer, bootstrap bool, f
 		if c.Cfg.SelfOnly[i] {
 			cur = []*peers.Peer{mkPeer(i)}
 		}
+		var px proxy.AppProxy = prox
+		if c.Cfg.WrapProxy != nil {
+			px = c.Cfg.WrapProxy(i, sn.App, prox)
+		}
 		sn.Node = node.NewNode(conf, node.NewValidator(sn.Key, sn.Peer.Moniker),
 			peers.NewPeerSet(cur), peers.NewPeerSet(clonePeers(c.Genesis)),
-			store, sn.Trans, prox)
+			store, sn.Trans, px)
 		sn.Node.VStopSignals()
 		if err := sn.Node.Init(); err != nil {
 			c.Errors = append(c.Errors, fmt.Sprintf("init node %d: %v", i, err))
